@@ -84,6 +84,8 @@ impl<VM: VMBinding> GCTrigger<VM> {
             return;
         }
 
+        #[cfg(mmtk_verif)]
+        crate::util::verif::rt::yield_point(crate::util::verif::rt::site::SCHED_TRIGGER_REQUEST);
         if !self.request_flag.swap(true, Ordering::Relaxed) {
             // `GCWorkScheduler::request_schedule_collection` needs to hold a mutex to communicate
             // with GC workers, which is expensive for functions like `poll`.  We use the atomic
@@ -96,6 +98,8 @@ impl<VM: VMBinding> GCTrigger<VM> {
     /// Clear the "GC requested" flag so that mutators can trigger the next GC.
     /// Called by a GC worker when all mutators have come to a stop.
     pub fn clear_request(&self) {
+        #[cfg(mmtk_verif)]
+        crate::util::verif::rt::yield_point(crate::util::verif::rt::site::SCHED_TRIGGER_CLEAR);
         self.request_flag.store(false, Ordering::Relaxed);
     }
 
